@@ -585,6 +585,16 @@ fn entry_justifies(e: &LayoutInput, out: &LayoutOutput, q: &LayoutInput, answer:
         && hx(answer.size.height) == hx(s.height)
 }
 
+/// `entry_justifies` without the answer: could entry (e, out) answer query q under `Cache::get`'s rule?
+fn entry_compatible(e: &LayoutInput, out: &LayoutOutput, q: &LayoutInput) -> bool {
+    let s = out.size;
+    e.run_mode == q.run_mode
+        && (q.known_dimensions.width == e.known_dimensions.width || q.known_dimensions.width == Some(s.width))
+        && (q.known_dimensions.height == e.known_dimensions.height || q.known_dimensions.height == Some(s.height))
+        && (q.known_dimensions.width.is_some() || roughly_equal(e.available_space.width, q.available_space.width))
+        && (q.known_dimensions.height.is_some() || roughly_equal(e.available_space.height, q.available_space.height))
+}
+
 impl Live {
     fn new() -> Self {
         Live { t: TaffyTree::new(), ids: vec![], m: Mirror::new(), stored: HashMap::new() }
@@ -1815,6 +1825,23 @@ fn cost_of(d: &TreeDesc, avail: Size<AvailableSpace>) -> Cost {
     }
 }
 
+/// number of body evaluations of a pass that an unbounded memo with `Cache::get`'s matching rule would have answered:
+/// an earlier result of the same node, stored in this pass, was compatible but had been displaced from its slot
+fn evicted_remisses(c: &Cost) -> u64 {
+    let mut stored: HashMap<usize, Vec<(LayoutInput, LayoutOutput)>> = HashMap::new();
+    let mut n = 0u64;
+    for (i, e) in &c.events {
+        if e.kind == vh::QueryKind::Miss {
+            let v = stored.entry(*i).or_default();
+            if v.iter().any(|(ki, ko)| entry_compatible(ki, ko, &e.input)) {
+                n += 1;
+            }
+            v.push((e.input, e.output));
+        }
+    }
+    n
+}
+
 /// one container level of a chain family
 #[derive(Clone)]
 struct ChainFamily {
@@ -2077,6 +2104,7 @@ pub fn run_c16(cfg: &Cfg, out: &mut Out) -> String {
             let mut fam_max_miss = 0u64;
             let mut panicked = None;
             let mut query_blowup_at = None;
+            let mut last_remisses = 0u64;
             let t0 = std::time::Instant::now();
             for d in 1..=CHAIN_DEPTHS {
                 let tree = chain_tree(f, d);
@@ -2087,6 +2115,7 @@ pub fn run_c16(cfg: &Cfg, out: &mut Out) -> String {
                 }
                 leaf_counts.push(*c.per_node.last().unwrap());
                 totals.push(c.total);
+                last_remisses = evicted_remisses(&c);
                 if d == 6 || d == 12 {
                     emit_cache_tie(out, &c, 3000);
                 }
@@ -2107,7 +2136,9 @@ pub fn run_c16(cfg: &Cfg, out: &mut Out) -> String {
             }
             let nd = leaf_counts.len();
             let blow = (0..nd).any(|i| leaf_counts[i] > C16_FACTOR * (i as u64 + 2));
-            let grows = nd > 8 && leaf_counts[nd - 1] > leaf_counts[7];
+            // growth with depth, not periodic variation along the cycle of level styles (cycle lengths 1–4: windows of 12)
+            let grows = nd >= 32 && leaf_counts[nd - 12..].iter().max() > leaf_counts[7..19].iter().max()
+                || nd > 8 && nd < 32 && leaf_counts[nd - 1] > leaf_counts[7] && leaf_counts[nd - 1] > *leaf_counts[..nd - 1].iter().max().unwrap();
             let line = format!(
                 "obs C16 chain {} {} {}",
                 f.label.replace(' ', "_"),
@@ -2121,6 +2152,11 @@ pub fn run_c16(cfg: &Cfg, out: &mut Out) -> String {
             } else {
                 "ok"
             };
+            // mechanism of a growing family: results displaced from their cache slot and computed again (the known
+            // findings), or only ever distinct questions (not seen on the unchanged tree: reported as new)
+            if blow || grows {
+                out.count(if last_remisses > 0 { "chain-growth:by-eviction" } else { "chain-growth:without-eviction" });
+            }
             out.qa(&line, ans);
             if let Some(d) = query_blowup_at {
                 query_blowups += 1;
